@@ -65,13 +65,16 @@ def valid_password(s):
     return not any(ord(c) < 0x20 or c in ' \u0085 ' for c in s)
 
 def gen_string(rng, maxlen=64, lenchg=False):
+    if lenchg and rng.random() < 0.5:
+        # U+0130 (its lower() has two characters) in front of / inside every kind of trigger
+        core = rng.choice(['bob@gmail.com', 'x@y.org', 'www.site.net', 'http://a.com/x', 'google.com', 'password', 'superman', '2019', '#1', '1qaz', 'a.b@mail.ru'])
+        i = rng.randrange(len(core) + 1)
+        s = rng.choice(['İ', 'aİ', 'İİ', 'İ1', '']) + core[:i] + rng.choice(['İ', '', 'İ']) + core[i:] + rng.choice(['', 'x', 'İ', '12', '!'])
+        return s if valid_password(s) else 'İ'
     s = ''.join(fragment(rng) for _ in range(rng.choice([1, 1, 2, 2, 3, 3, 4, 5, 6])))
     for _ in range(rng.choice([0, 0, 0, 1, 1, 2, 3])):
         s = mutate(rng, s)
     s = s[:maxlen]
-    if not lenchg:
-        # characters whose lower() changes length (U+0130) are kept in their own input class (recorded finding F-C05)
-        s = ''.join(c if len(c.lower()) == 1 else 'I' for c in s)
     return s if valid_password(s) else 'x'
 
 def gen_history(rng):
@@ -138,8 +141,6 @@ def classify(pw, kinds, exc=None):
     """Mechanism keys of the recorded findings, decided from the INPUT (and, for F-C05b, the exception type + frames)."""
     if exc is not None and isinstance(exc[0], RecursionError) and 'detect_keyboard_walk' in exc[1]:
         return 'keyboard-walk-recursion-depth'
-    if any(len(c.lower()) != 1 for c in pw):
-        return 'len-changing-lower'
     return None
 
 def uclasses(pw):
@@ -208,7 +209,7 @@ def check_batch(run, case):
             if len(run.samples) < run.MAX_SAMPLES and len(set(labs)) >= 3 and len(pw) < 30:
                 run.sample({'password': pw, 'segments': secs})
         # counters vs tallies (only meaningful when no known-finding input polluted the parser state)
-        if len(segmented) == len(case['strings']) and not any(len(c.lower()) != 1 for pw in case['strings'] for c in pw):
+        if len(segmented) == len(case['strings']):
             t = trained.tally(segmented)
             pairs = [('count_alpha', t['Alpha']), ('count_alpha_masks', t['Capitalization']), ('count_digits', t['Digits']), ('count_other', t['Other']),
                      ('count_keyboard', t['Keyboard'])]
@@ -257,8 +258,6 @@ def run(run, rng):
         hist = gen_history(rng)
         strings = [gen_string(rng, lenchg=lenchg) for _ in range(BATCH - 70)] + multiword_family(rng, hist, 30) + glued_candidates(rng, hist, 40)
         rng.shuffle(strings)
-        if not lenchg:
-            strings = [''.join(c if len(c.lower()) == 1 else 'I' for c in x) for x in strings]
         case = {'history': hist, 'strings': strings}
         run.guard(case, check_batch, seconds=300)
         done += BATCH
